@@ -297,56 +297,66 @@ func (w *World) detectRenames() {
 		}
 	}
 	// ---- types ----
-	for _, p := range w.Pkgs {
-		rel := relOfPkg(p.Types)
-		rec := tab.Types[rel]
-		if rec == nil {
-			continue
-		}
-		sc := p.Types.Scope()
-		var fresh []*types.TypeName
-		for _, nm := range sc.Names() {
-			if tn, ok := sc.Lookup(nm).(*types.TypeName); ok && !tn.IsAlias() {
-				if _, known := rec[nm]; !known {
-					fresh = append(fresh, tn)
-				}
-			}
-		}
-		names := make([]string, 0, len(rec))
-		for nm := range rec {
-			names = append(names, nm)
-		}
-		sort.Strings(names)
-		for _, nm := range names {
-			if sc.Lookup(nm) != nil || types.Universe.Lookup(nm) != nil || len(nm) == 0 || (nm[0] >= 'A' && nm[0] <= 'Z') {
+	// (repeated: the fingerprint of a type mentions other types, which may have been renamed in the same change and
+	// are only written under their recorded names once they have been identified)
+	for pass := 0; pass < 3; pass++ {
+		before := len(oldTypeName)
+		for _, p := range w.Pkgs {
+			rel := relOfPkg(p.Types)
+			rec := tab.Types[rel]
+			if rec == nil {
 				continue
 			}
-			want := rec[nm]
-			var match []*types.TypeName
-			for _, tn := range fresh {
-				n, ok := tn.Type().(*types.Named)
-				if !ok {
-					continue
-				}
-				got := fingerprintType(n)
-				if got.Under != want.Under || len(got.Fields) != len(want.Fields) {
-					continue
-				}
-				same := true
-				for i := range got.Fields {
-					gt := strings.ReplaceAll(got.Fields[i].Type, p.Types.Path()+"."+tn.Name(), p.Types.Path()+"."+nm)
-					if gt != want.Fields[i].Type {
-						same = false
+			sc := p.Types.Scope()
+			var fresh []*types.TypeName
+			for _, nm := range sc.Names() {
+				if tn, ok := sc.Lookup(nm).(*types.TypeName); ok && !tn.IsAlias() {
+					if _, known := rec[nm]; !known {
+						fresh = append(fresh, tn)
 					}
 				}
-				if same {
-					match = append(match, tn)
+			}
+			names := make([]string, 0, len(rec))
+			for nm := range rec {
+				names = append(names, nm)
+			}
+			sort.Strings(names)
+			for _, nm := range names {
+				if sc.Lookup(nm) != nil || types.Universe.Lookup(nm) != nil || len(nm) == 0 || (nm[0] >= 'A' && nm[0] <= 'Z') {
+					continue
+				}
+				want := rec[nm]
+				var match []*types.TypeName
+				for _, tn := range fresh {
+					n, ok := tn.Type().(*types.Named)
+					if !ok {
+						continue
+					}
+					got := fingerprintType(n)
+					if got.Under != want.Under || len(got.Fields) != len(want.Fields) {
+						continue
+					}
+					same := true
+					for i := range got.Fields {
+						gt := strings.ReplaceAll(got.Fields[i].Type, p.Types.Path()+"."+tn.Name(), p.Types.Path()+"."+nm)
+						if gt != want.Fields[i].Type {
+							same = false
+						}
+					}
+					if same {
+						match = append(match, tn)
+					}
+				}
+				if len(match) == 1 {
+					if _, done := oldTypeName[match[0]]; !done {
+						oldTypeName[match[0]] = nm
+						renameNotes = append(renameNotes, "type "+rel+"."+match[0].Name()+" is taken as the recorded "+nm)
+					}
 				}
 			}
-			if len(match) == 1 {
-				oldTypeName[match[0]] = nm
-				renameNotes = append(renameNotes, "type "+rel+"."+match[0].Name()+" is taken as the recorded "+nm)
-			}
+		}
+		if len(oldTypeName) == before {
+			break
 		}
 	}
 	// ---- fields ----
